@@ -81,6 +81,13 @@ def frame(pattern, shape, scale=1.0):
         a = (np.arange(r * c, dtype=float).reshape(shape) * 12.5 + 0.5) * k
     elif pattern == "checker":
         a = ((np.indices(shape).sum(axis=0) + s) % 2) * 250.0 * k + 0.75
+    elif pattern in ("sparse_rows", "sparse_cols"):
+        # one bright pixel per line (row / column), a third of the way in, all other pixels of the line empty
+        a = np.zeros(shape)
+        if pattern == "sparse_rows":
+            a[:, c // 3] = 7.0e4 * k
+        else:
+            a[r // 3, :] = 7.0e4 * k
     else:
         raise KeyError(pattern)
     return a * scale
@@ -169,6 +176,17 @@ def enumerate_cases(tier, seed):
                                   fwc=fwc, inj=False, repeats=2))
             cases.append(dict(CDM_BASE, fam="cdm", direction=direction, species=2, pattern=pat, shape=[2, 4],
                               fwc=1000.0, inj=True, repeats=2))
+    # cdm, sparse lines (a bright pixel followed by a long run of empty pixels) with traps strong enough that the
+    # charge released into the empty pixels is far above the model's 0.01 e- floor: release bookkeeping
+    for direction in ("parallel", "serial"):
+        for shape in ([1, 24], [24, 1], [3, 18], [18, 3]):
+            for species in (1, 3):
+                for nt in (1.0e10, 4.0e10):
+                    for ratio in (1.0, 0.1, 0.01):           # transfer period / release time
+                        for pat in ("sparse_rows", "sparse_cols"):
+                            cases.append(dict(fam="cdm", beta=0.3, tr=2.0e-3 / ratio, nt=nt, sigma=1.0e-15, vg=1.0e-10,
+                                              t=2.0e-3, direction=direction, species=species, pattern=pat,
+                                              shape=shape, fwc=1.0e5, inj=False, repeats=2))
     # persistence (simple and with maps)
     hist = _histories(4 if thorough else 3)
     for p in _persist_params(thorough):
